@@ -326,6 +326,13 @@ fn msm_paths<G: CurveGroup + VariableBaseMSM>(t: &mut Tally, name: &str, pts: &[
                 t.check(G::msm_unchecked(&bases, &scalars[..len - 1]) == naive(&bases, &scalars[..len - 1]), || format!("{name}: msm_unchecked truncation (scalars shorter) len {len}"));
             }
             t.check(G::msm_chunks(&bases.as_slice(), &scalars.as_slice()) == e, || format!("{name}: msm_chunks len {len} round {round}"));
+            // a scalar stream shorter than the base stream is aligned with the END of the base stream
+            if len >= 2 {
+                for k in [1usize, len / 2, len - 1] {
+                    if k == 0 { continue; }
+                    t.check(G::msm_chunks(&bases.as_slice(), &&scalars[..k]) == naive(&bases[len - k..], &scalars[..k]), || format!("{name}: msm_chunks with {len} bases and {k} scalars != sum over the last {k} bases"));
+                }
+            }
             // incremental accumulators, every buffer size 1..len+1
             if len <= 12 {
                 for buf in 1..(len + 2) {
